@@ -119,6 +119,15 @@ def check_invariants(inp):
                                                    'emb': {'table': jnp.arange(4.0)}})
     grads = jax.tree_util.tree_map(lambda x: jnp.ones_like(x) * 0.5, params)
     for base in (optimizers.sgd(0.1), optimizers.sgd(0.1, momentum=0.9), optimizers.adam(0.1)):
+      # two ignored parameters of the SAME module (freezing a whole layer), for two steps
+      names2 = [('lin', 'w'), ('lin', 'b')]
+      opt2 = optimizers.ignore_grads_haiku(base, names2)
+      st2, cur = opt2.init(params), params
+      for _ in range(2):
+        st2, cur = opt2.apply(grads, st2, cur)
+      for m, n in names2:
+        if not np.array_equal(np.asarray(cur[m][n]), np.asarray(params[m][n])):
+          return f'ignore_grads_haiku changed the ignored parameter {m}/{n} when {names2} are ignored'
       names = [('emb', 'table'), ('lin', 'b')]
       opt = optimizers.ignore_grads_haiku(base, names)
       s = opt.init(params)
